@@ -79,6 +79,7 @@ type Gen struct {
 	guard       Term
 	parents     []mergeEdge
 	tag         string
+	only        map[string]bool // havoc: heaps that may have been written at all (nil = any)
 }
 
 type State struct {
@@ -88,10 +89,11 @@ type State struct {
 	alloc  Term
 	defers []*deferred
 	u      *Unit
+	noName bool // pure mode: terms must stay closed
 }
 
 func (s *State) Clone() *State {
-	n := &State{cells: make(map[interface{}]Value, len(s.cells)), heaps: make(map[string]Term, len(s.heaps)), gen: s.gen, alloc: s.alloc, u: s.u}
+	n := &State{cells: make(map[interface{}]Value, len(s.cells)), heaps: make(map[string]Term, len(s.heaps)), gen: s.gen, alloc: s.alloc, u: s.u, noName: s.noName}
 	for k, v := range s.cells {
 		n.cells[k] = v
 	}
@@ -115,6 +117,11 @@ func (s *State) Heap(name, sort string) Term {
 		u.heapInitFacts(name, t, TTrue)
 	case "havoc":
 		pv := s.gen.parent.Heap(name, sort)
+		if s.gen.only != nil && !s.gen.only[name] {
+			// not written by the havocked code: fresh memory it allocated was unconstrained before
+			s.heaps[name] = pv
+			return pv
+		}
 		t = u.W.Fresh(name+"@"+s.gen.tag, sort)
 		if s.gen.writable != nil {
 			p := Term{"p!f", SPtr}
@@ -152,7 +159,22 @@ func (s *State) Heap(name, sort string) Term {
 	return t
 }
 
-func (s *State) SetHeap(name string, t Term) { s.heaps[name] = t }
+func (s *State) SetHeap(name string, t Term) {
+	if len(t.S) > 160 && !s.noName {
+		t = s.u.NameTerm(t, name)
+	}
+	s.heaps[name] = t
+}
+
+// NameTerm introduces a constant for a large term (keeps queries linear in size).
+func (u *Unit) NameTerm(t Term, hint string) Term {
+	if len(t.S) <= 160 {
+		return t
+	}
+	n := u.W.Fresh("d."+hint, t.Sort)
+	u.AssumeRaw(Eq(n, t))
+	return n
+}
 
 // heapInitFacts: facts true of every unconstrained heap version.
 func (u *Unit) heapInitFacts(name string, t Term, guard Term) {
